@@ -109,8 +109,15 @@ GStep(st, pre, gg) ==
                                ELSE NoRound]
       closed == UNION {IF gg.round[v].open /\ ~round1[v].open THEN DOMAIN gg.round[v].view ELSE {} : v \in I}
       reborn == {p \in P : \E i \in I : born1[p][i] # gg.born[p][i] /\ born1[p][i] > 0}
+      \* a copy that the Master did not see when it decided (started just before / during the round, its event still on
+      \* the way) is not part of the decision: it counts as started after the round
+      unseen == UNION {IF gg.round[v].open /\ ~round1[v].open
+                       THEN {p \in DOMAIN gg.round[v].view :
+                               \E i \in I : st.truth[p][i] \in RunningLike
+                                             /\ i \notin gg.round[v].view[p] \cup gg.round[v].view2[p]}
+                       ELSE {} : v \in I}
   IN [gg EXCEPT !.born = born1, !.round = round1, !.conciliated = @ \cup closed,
-                !.bornAfter = (@ \ closed) \cup (reborn \cap (gg.conciliated \cup closed)), !.prev = st]
+                !.bornAfter = (@ \ closed) \cup (reborn \cap (gg.conciliated \cup closed)) \cup unseen, !.prev = st]
 
 \* ---------------------------------------------------------------------------------------------------------------
 \* terminal formulas: the trace ended with enough quiet fair rounds
